@@ -1,4 +1,10 @@
 """C01 Garbled evaluation equals plain evaluation for every circuit."""
+import os
+import sys
+
+sys.path.insert(0, os.path.dirname(os.path.abspath(__file__)))
+from t1 import run_t1  # noqa: E402  (T1 leaf translator tie, checks/t1.py)
+
 LEVEL = "proof"
 
 THEOREMS = [
@@ -24,6 +30,7 @@ def distinct_ops(ctx, ops):
 
 def run(ctx):
     ctx.prove("MpcVerif.Props.C01", THEOREMS)
+    run_t1(ctx)
     if ctx.tier == "thorough":
         ctx.leanchecker("MpcVerif.Props.C01")
     ctx.build_drv()
